@@ -28,6 +28,8 @@ other fields hex), pattern lists `,`-joined (`-` empty), names `space:loc` (hex)
                                                      multiplexer while the handler with ordinal <at> of stanza A has read
                                                      <pre> tokens (mode nest: from inside that handler; conc / conc2: on
                                                      another goroutine), after <warm> earlier dispatches
+    cut <k> <typ> <patterns> <toks> <cons> <cut>  -> <calls>|fail: the reader hands out the first <cut> tokens of the stanza and
+                                                     then fails; HandleXMPP must return that error
     direct … <errs> <parsemap>, iqdirect … <c> <parsemap>
                                                   -> as above with the verdicts of jid.Parse on the addresses that occur
                                                      (`,`-joined <raw>=<canonical> | <raw>=!): `addrerr` / `err` when an own
@@ -116,6 +118,12 @@ def handle (args : List String) : Option String :=
       | .ran ps => if ps.isEmpty then "-" else "/".intercalate (ps.map encPattern)
       | .reply h => "fallback@" ++ hexF h.to ++ "/" ++ hexF h.frm ++ "/" ++ hexF h.id
       | .err => "err")
+  | ["cut", k, typ, pats, toks, cons, cut] => do
+    let k ← decKind k; let typ ← field typ; let pats ← decPatterns pats
+    let toks ← decToks toks; let cons ← decNats cons; let cut ← cut.toNat?
+    let mtyp := (stanzaHdr k (startAttrs toks)).typ
+    if mtyp != typ then pure s!"MODEL-TYPE={hexF mtyp}" else
+    pure (encCalls (stanzaRouteCut pats k toks cons cut) ++ "|fail")
   | ["overlap", _mode, _warm, pats, toksA, consA, _at, _pre, toksB, consB] => do
     let pats ← decPatterns pats
     let toksA ← decToks toksA; let consA ← decNats consA
